@@ -272,8 +272,21 @@ var c20Patterns = map[int][][]int{
 	6: {{2, 1, 2, 2, 2, 2}, {2, 2, 2, 1, 2, 2}, {1, 1, 1, 1, 1, 1}, {2, 1, 1, 4, 1, 2}, {2, 1, 1, 2, 1, 4}, {2, 1, 1, 2, 3, 2}, {4, 1, 1, 1, 3, 1}, {1, 1, 4, 1, 1, 3}},
 }
 
+// c20PatBuf: one pattern buffer of the caller, refilled for every call (a score depends on the
+// VALUES of counters and pattern handed to this call, not on the storage they sit in).
+var c20PatBuf = make([]int, 32)
+
 func c20CheckOne(r *fw.Rec, c, p []int, lim float64) bool {
 	got := oned.PatternMatchVariance(c, p, lim)
+	if len(p) <= len(c20PatBuf) && r.Rng.Intn(3) == 0 {
+		copy(c20PatBuf, p)
+		again := oned.PatternMatchVariance(c, c20PatBuf[:len(p)], lim)
+		if again != got && !(math.IsNaN(again) && math.IsNaN(got)) {
+			r.Violation("model-mismatch", "PatternMatchVariance:depends-on-pattern-storage", fmt.Sprintf("PatternMatchVariance(%v, %v, %v) = %v, the same pattern values in a buffer used for other patterns before give %v", c, p, lim, got, again), map[string]interface{}{"counters": c, "pattern": p, "limit": fmt.Sprint(lim)})
+			return false
+		}
+		r.Tally("variance_calls_with_a_reused_pattern_buffer")
+	}
 	want, inf, border := refVariance(c, p, lim)
 	r.Evals(1)
 	if border {
@@ -459,6 +472,7 @@ func c20(c *fw.Ctx) {
 	c.Floor("forward_runs_returned", 1000)
 	c.Floor("reverse_runs_returned", 1000)
 	c.Floor("variance_inf_cases", 1000)
+	c.Floor("variance_calls_with_a_reused_pattern_buffer", 1000)
 	c.Floor("variance_finite_cases", 1000)
 	c.Floor("variance_zero_cases", 10)
 }
